@@ -158,7 +158,7 @@ def fn(ck, a):
             parts[k % NPROC].extend(g)
         parts = [p for p in parts if p]
         paths = []
-        drop = ("label", "tag", "struct", "cls", "refused", "stored")
+        drop = ("label", "tag", "struct", "cls", "refused", "stored", "_body")
         for k, p in enumerate(parts):
             path = os.path.join(tmp, f"obs_{k}.json")
             with open(path, "w") as f:
